@@ -34,7 +34,7 @@ type csetDesc struct {
 	N        int  `json:"n"`        // branches of the fork in P0
 	Second   bool `json:"second"`   // a second executable process
 	Answered int  `json:"answered"` // tasks of P0 answered before the cancellation
-	BuildCtx bool `json:"buildCtx"` // the set is built with a context of its own (otherwise with none)
+	BuildCtx bool `json:"buildCtx"` // the set is built with a context of its own (otherwise with none: its tracers then live as long as the test process, so this variant is drawn less often)
 }
 
 func runCancelledSet(d csetDesc) (sym, det, inconcl string) {
@@ -176,7 +176,7 @@ func TestC09CancelledSet(t *testing.T) {
 		return
 	}
 	rapid.Check(t, func(rt *rapid.T) {
-		d := csetDesc{N: rapid.SampledFrom([]int{2, 3, 5, 8, 11, 12, 16, 24}).Draw(rt, "n"), Second: rapid.Bool().Draw(rt, "second"), BuildCtx: rapid.Bool().Draw(rt, "buildCtx")}
+		d := csetDesc{N: rapid.SampledFrom([]int{2, 3, 5, 8, 11, 12, 16, 24}).Draw(rt, "n"), Second: rapid.Bool().Draw(rt, "second"), BuildCtx: rapid.IntRange(0, 3).Draw(rt, "buildCtx") > 0}
 		d.Answered = rapid.IntRange(0, min(3, d.N-1)).Draw(rt, "answered")
 		hash := rec.Hash(d)
 		rec.Begin("TestC09CancelledSet", hash, d)
